@@ -244,3 +244,27 @@ Proof. solve_debit_credit. Qed.
 
 Lemma debit_credit_ss : debit_credit "add_ss_assemblage".
 Proof. solve_debit_credit. Qed.
+
+(* ---------------------------------------------------------------- reuse of the previously built equation set *)
+(* Everything that build_model bakes into the equations of a reacting system must be compared by
+   check_same_model before prep() takes the quick_setup() short cut: the identity of every pure phase AND of its
+   alternative reactant (string identity, not mere presence), of every gas component, solid solution, surface
+   component / charge, the surface and diffuse-layer and gas-phase types, and the component counts. *)
+Definition required_same_model : list gexp :=
+  [ GNot (GAtom "last_model.pp_assemblage.size==cxxPPassemblage.Get_pp_assemblage_comps.size");
+    GNot (GAtom "last_model.pp_assemblage[]==phase");
+    GNot (GAtom "last_model.add_formula[]==this.string_hsave(iter(cxxPPassemblage.Get_pp_assemblage_comps).second.Get_add_formula.c_str)");
+    GNot (GAtom "last_model.gas_phase.size==cxxGasPhase.Get_gas_comps.size");
+    GNot (GAtom "last_model.gas_phase[]==phase");
+    GNot (GAtom "last_model.gas_phase_type==cxxGasPhase.Get_type");
+    GNot (GAtom "last_model.ss_assemblage.size==use.Get_ss_assemblage_ptr.Get_SSs.size");
+    GNot (GAtom "last_model.ss_assemblage[]==this.string_hsave(std::vector<cxxSS >[].Get_name.c_str)");
+    GNot (GAtom "last_model.surface_comp.size==use.Get_surface_ptr.Get_surface_comps.size");
+    GNot (GAtom "last_model.surface_comp[]==this.string_hsave(use.Get_surface_ptr.Get_surface_comps[].Get_formula.c_str)");
+    GNot (GAtom "last_model.surface_charge.size==use.Get_surface_ptr.Get_surface_charges.size");
+    GNot (GAtom "last_model.surface_charge[]==this.string_hsave(use.Get_surface_ptr.Get_surface_charges[].Get_name.c_str)");
+    GNot (GAtom "last_model.surface_type==use.Get_surface_ptr.Get_type");
+    GNot (GAtom "last_model.dl_type==use.Get_surface_ptr.Get_dl_type") ].
+
+Lemma same_model_compares : all_present required_same_model gen_same_model = true.
+Proof. vm_compute. reflexivity. Qed.
